@@ -1,12 +1,14 @@
 #!/usr/bin/env python3
 """Confirm a seeded change produced by an independent agent and run the checks against it.
-usage: seeded_eval.py <worktree> <subdir a|b> <PROP> [--skip-confirm]
+usage: seeded_eval.py <worktree> <subdir a|b> <PROP> [suffix] [--skip-confirm | --confirm-only | --use-confirm]
  1. in the worktree: patch applies; existing tests pass with it; demo fails with it and passes without it
  2. apply patch to /repo, run ./check PROP quick (then thorough if quick is silent), restore /repo
  3. store patch.diff, demo.diff, meta.json under /verif/seeded/<PROP><subdir>/"""
 import subprocess, sys, os, json, shutil, time
 wt, sub, prop = sys.argv[1], sys.argv[2], sys.argv[3]
 skip = "--skip-confirm" in sys.argv
+confirm_only = "--confirm-only" in sys.argv   # steps 1 only (parallelisable: touches the worktree only), result kept in <src>/confirm.json
+use_confirm = "--use-confirm" in sys.argv     # take step 1 from <src>/confirm.json written by an earlier --confirm-only run
 src = os.path.join(wt, "seeded", sub)
 ENV = dict(os.environ, CARGO_NET_OFFLINE="true")
 def sh(cmd, cwd=None, timeout=2400):
@@ -23,7 +25,9 @@ if "&&" in demo_cmd and demo_cmd.strip().startswith("cd "):
 res = {"property": prop, "agent_meta": meta}
 def clean():
     sh("git checkout -- . && git clean -fdq -- contracts packages", cwd=wt)
-if not skip:
+if use_confirm:
+    res.update(json.load(open(os.path.join(src, "confirm.json"))))
+elif not skip:
     clean()
     rc, out = sh(f"git apply --check {src}/patch.diff && git apply --check {src}/demo.diff", cwd=wt)
     res["patches_apply"] = rc == 0
@@ -43,6 +47,10 @@ if not skip:
     res["demo_passes_without_patch"] = rc == 0
     clean()
     res["confirmed"] = bool(res["patches_apply"] and res["existing_tests_with_patch"]["ok"] and res["demo_fails_with_patch"] and res["demo_passes_without_patch"])
+if confirm_only:
+    json.dump({k: res.get(k) for k in ["patches_apply", "existing_tests_with_patch", "demo_fails_with_patch", "demo_passes_without_patch", "confirmed"]}, open(os.path.join(src, "confirm.json"), "w"))
+    print(src, "confirmed" if res.get("confirmed") else "NOT CONFIRMED", res)
+    sys.exit(0)
 # detection
 st = subprocess.run("git -C /repo status --porcelain --untracked-files=no", shell=True, capture_output=True, text=True).stdout.strip()
 if st:
